@@ -24,7 +24,7 @@ def calc_velo_and_disp_from_accel_arr(acceleration, dt, trap=True):
     from scipy.integrate import cumulative_trapezoid
     if not trap:
         velocity = np.zeros(len(acceleration) + 1)
-        velocity[1:] = np.asarray(acceleration) * dt  # computes the increments
+        velocity[1:] = np.asarray(acceleration, dtype=float) * dt  # computes the increments
         np.cumsum(velocity, out=velocity)  # passed into original array for efficiency
         # np.insert(velocity, 0, 0)
         # velocity = velocity[:-1]
